@@ -16,7 +16,9 @@ HEADER = ("From Coq Require Import NArith List String.\nImport ListNotations.\n"
           "From RCE Require Import lib.Bits model.Board model.Movegen model.Fen model.CasesBoard.\n"
           "Open Scope string_scope.\n")
 
-MODEL_TARGETS = ["model/CasesBoard.vo"]
+MODEL_TARGETS = ["model/CasesBoard.vo", "model/CasesSpec.vo"]
+SPEC_HEADER = HEADER.replace("model.CasesBoard.", "model.CasesBoard model.CasesSpec.")
+SPEC_NAMES = ["spec.legal_set", "spec.nodup", "spec.check_white", "spec.check_black", "spec.apply", "spec.flags", "spec.wf"]
 
 
 def norm(x):
@@ -134,6 +136,22 @@ def run_model(cases, timeout=3000):
         items.append("walk_case %s [%s] %s" % (coq_str(c["fen"]), "; ".join(coq_str(m) for m in c["moves"]),
                                                 "true" if c["deep"] else "false"))
     vals, lg = C.coq_eval_items("bcorr", HEADER, items, lambda l: l, nshards=C.NPROC * 2, timeout=timeout)
+    if vals is None:
+        return None, lg
+    out = [None] * len(cases)
+    for i, v in zip(order, vals):
+        out[i] = norm(v)
+    return out, lg
+
+
+def run_spec(cases, timeout=3000):
+    def cost(c):
+        pieces = sum(1 for ch in c["fen"].split()[0] if ch.isalpha())
+        return (len(c["moves"]) + 1) * pieces * pieces
+    order = sorted(range(len(cases)), key=lambda i: -cost(cases[i]))
+    items = ["spec_case %s [%s]" % (coq_str(cases[i]["fen"]), "; ".join(coq_str(m) for m in cases[i]["moves"]))
+             for i in order]
+    vals, lg = C.coq_eval_items("bspec", SPEC_HEADER, items, lambda l: l, nshards=C.NPROC * 2, timeout=timeout)
     if vals is None:
         return None, lg
     out = [None] * len(cases)
@@ -276,7 +294,20 @@ def run(tier, seed):
         t2 = time.time()
         if mod is None:
             return {"error": "model evaluation failed", "log": lg[-3000:]}
+        spec, lg2 = run_spec(cases)
+        t3 = time.time()
+        if spec is None:
+            return {"error": "spec evaluation failed", "log": lg2[-3000:]}
         divs = []
+        spec_nodes = 0
+        for i, sp in enumerate(spec):
+            if sp is None:
+                continue
+            for k, flags in enumerate(sp[1]):
+                spec_nodes += 1
+                for nm, fl in zip(SPEC_NAMES, flags):
+                    if fl != 1:
+                        divs.append([i, {"field": nm, "node": k, "engine": None, "model": "model disagrees with spec/Rules.v"}])
         selfc = []
         feat = {}
         nodes = 0
@@ -301,7 +332,8 @@ def run(tier, seed):
         res = {"cases": cases, "divergences": divs, "self": selfc,
                "stats": {"cases": len(cases), "nodes": nodes, "distinct_positions": len(distinct),
                          "moves_probed": moves_probed, "features": feat, "case_kinds": kinds,
-                         "engine_s": round(t1 - t0, 1), "model_s": round(t2 - t1, 1)},
+                         "spec_nodes": spec_nodes,
+                         "engine_s": round(t1 - t0, 1), "model_s": round(t2 - t1, 1), "spec_s": round(t3 - t2, 1)},
                "sample": {"case": cases[-1], "engine_first_node_state": eng[-1]["nodes"][0][0] if not eng[-1].get("panic") else None}}
         with open(cpath + ".tmp", "w") as f:
             json.dump(res, f)
